@@ -28,6 +28,27 @@ class Unknown(Exception):
 
 def lenform(ctx, t, depth=0):
     """frozenset of canonical atoms whose minimum is the length of collection/iterator term t"""
+    atoms, off = _lf(ctx, t, depth)
+    if off != 0:
+        raise Unknown('net length offset %d' % off)
+    return atoms
+
+
+def _const_len(t):
+    """number of elements of a literal collection, else None"""
+    while t.tag in ('mut', 'via') and not (t.tag == 'mut' and t[2]):
+        t = t[1] if t.tag == 'mut' else t[2]
+    if t.tag in ('array', 'tuple'):
+        return len(t.args)
+    if t.tag == 'repeatv' and isinstance(t[2], (int, str)) and str(t[2]).isdigit():
+        return int(t[2])
+    if t.tag in ('once',):
+        return 1
+    return None
+
+
+def _lf(ctx, t, depth=0):
+    """(atoms, offset): the length is min(atoms) + offset"""
     if depth > 30:
         raise Unknown('depth')
     k = t.tag
@@ -45,7 +66,7 @@ def lenform(ctx, t, depth=0):
             if body is not None and ckey == bkey:
                 lps = [lp for lp in ctx.enclosing_loops(body, pbb) if cbb not in lp.blocks]
                 if len(lps) == 1 and lps[0].iter_term is not None and lps[0].driver_only_exit and ctx.every_iteration(body, lps[0], pbb):
-                    return lenform(ctx, lps[0].iter_term, depth + 1)
+                    return _lf(ctx, lps[0].iter_term, depth + 1)
         off = 0
         for e in evs:
             if e.tag != 'ev' or e[1] != 'call':
@@ -55,37 +76,52 @@ def lenform(ctx, t, depth=0):
                 off += 1
             elif d == 'std::vec::Vec::<T, A>::pop':
                 off -= 1
-            elif d in ('std::vec::Vec::<T, A>::extend_from_slice', 'std::iter::Extend::extend') and e[3] and e[3][0].tag == 'array':
-                off += len(e[3][0].args)
+            elif d in ('std::vec::Vec::<T, A>::extend_from_slice', 'std::iter::Extend::extend') and e[3] and _const_len(e[3][0]) is not None:
+                off += _const_len(e[3][0])
             elif d in ('curve25519_dalek::Scalar::batch_invert',) or d.startswith('std::ops::') and d.endswith('_assign'):
                 pass
             else:
                 raise Unknown('event %s changes the length by an unknown amount' % d)
-        # pushes and pops must not sit in loops relative to one another: require straight-line balance
-        if off != 0:
-            raise Unknown('net length offset %d' % off)
-        return lenform(ctx, base, depth + 1)
+        # (pushes and pops in loops relative to one another are not modelled: straight-line balance only)
+        a, o = _lf(ctx, base, depth + 1)
+        return a, o + off
     if k in ('map', 'enumerate'):
-        return lenform(ctx, t[1], depth + 1)
+        return _lf(ctx, t[1], depth + 1)
+    if k == 'adapt' and t[1] in ('copied', 'cloned', 'rev', 'by_ref', 'peekable') and len(t.args) >= 2:
+        return _lf(ctx, t[2], depth + 1)
     if k == 'range' and t[1].tag == 'const' and t[1][1] == 0 and not (t[2].tag == 'const' and t[2][1] is None):
-        return frozenset(['=' + canon(t[2])])
+        return frozenset(['=' + canon(t[2])]), 0
     if k == 'adapt' and t[1] == 'take' and len(t.args) >= 3:
-        return lenform(ctx, t[2], depth + 1) | frozenset(['=' + canon(t[3])])
+        a, o = _lf(ctx, t[2], depth + 1)
+        if o != 0:
+            raise Unknown('take of an offset length')
+        return a | frozenset(['=' + canon(t[3])]), 0
     if k == 'zip':
-        return lenform(ctx, t[1], depth + 1) | lenform(ctx, t[2], depth + 1)
+        (a1, o1), (a2, o2) = _lf(ctx, t[1], depth + 1), _lf(ctx, t[2], depth + 1)
+        if o1 != o2:
+            raise Unknown('zip of lengths with different offsets')
+        return a1 | a2, o1
+    if k == 'chain':
+        # a literal tail / head of known size shifts the length
+        for x, y in ((t[1], t[2]), (t[2], t[1])):
+            n = _const_len(y)
+            if n is not None:
+                a, o = _lf(ctx, x, depth + 1)
+                return a, o + n
+        raise Unknown('chain of two collections of unknown length')
     if k == 'call':
         name = t[1]
         if name in ctx.facts.fn:
             inl = ctx.eng.inline(name, t[2], t[3])
             if inl is not t:
-                return lenform(ctx, inl, depth + 1)
+                return _lf(ctx, inl, depth + 1)
         if name == 'std::vec::from_elem' and len(t[2]) == 2:
-            return frozenset(['=' + canon(t[2][1])])
+            return frozenset(['=' + canon(t[2][1])]), 0
         raise Unknown('call ' + name)
     if k in ('field', 'param', 'elem', 'elemat', 'upvar'):
-        return frozenset(['len(%s)' % canon(t)])
+        return frozenset(['len(%s)' % canon(t)]), 0
     if k == 'phi':
-        fs = {lenform(ctx, x, depth + 1) for x in t.args}
+        fs = {_lf(ctx, x, depth + 1) for x in t.args}
         if len(fs) == 1:
             return fs.pop()
         raise Unknown('phi of different lengths')
